@@ -467,6 +467,53 @@ func ruleConv(c *Ctx) {
 			}
 		}
 		ok4 = ok4 && okInstall && okTy
+		// one Go field, one object field — on both paths: the loops over rt.NumField() in typeOf and valOfStruct run every
+		// iteration to its end (no continue / break) and add exactly one entry per iteration (no `append(xs, ys...)`). A field
+		// that is skipped, or expanded into several, on a condition that the two paths evaluate on different things (the static
+		// field type there, the converted value here) gives one Go type two object types.
+		for _, fn := range []string{"typeOf", "valOfStruct"} {
+			fd := c.FuncDecl("conv", fn)
+			if fd == nil {
+				continue
+			}
+			nLoops := 0
+			inspectNoLit(fd.Body, func(x ast.Node) bool {
+				var body *ast.BlockStmt
+				var hdr string
+				switch l := x.(type) {
+				case *ast.ForStmt:
+					body = l.Body
+					if l.Cond != nil {
+						hdr = src(l.Cond)
+					}
+				case *ast.RangeStmt:
+					body, hdr = l.Body, src(l.X)
+				default:
+					return true
+				}
+				if !strings.Contains(hdr, "NumField") && len(c.callsTo(body, "conv.parseTag")) == 0 {
+					return true
+				}
+				nLoops++
+				ok, why := true, ""
+				ast.Inspect(body, func(y ast.Node) bool {
+					switch b := y.(type) {
+					case *ast.FuncLit:
+						return false
+					case *ast.BranchStmt:
+						ok, why = false, "the loop over the struct's fields can "+b.Tok.String()
+					case *ast.CallExpr:
+						if id, isID := b.Fun.(*ast.Ident); isID && id.Name == "append" && b.Ellipsis.IsValid() {
+							ok, why = false, "the loop splices a whole list of entries ("+src(b)+") for one Go field"
+						}
+					}
+					return true
+				})
+				c.R.Check(ok, "conv."+fn, "CONV-4 one object field per Go field", x.Pos(), "every iteration runs to its end and appends one entry", why+": the set of object fields is no longer the set of Go fields on this path")
+				return true
+			})
+			c.R.Check(nLoops >= 1, "conv."+fn, "CONV-4 struct-field loop found", fd.Pos(), "loop over rt.NumField()", "no loop over the struct's fields found")
+		}
 		c.R.Check(ok4, "conv.valOfStruct", "CONV-4 values and field types appended in lock-step under the tag name", vs.Pos(), "vs = append(vs, vl); ks = append(ks, Field{name, vl.Type}) in one iteration; obj.V = vs with type Obj(ks)", "struct values and their field types are not built in lock-step (a field's declared type can differ from its value's type)")
 	}
 	if tyOfStruct := tyOf; tyOfStruct != nil {
